@@ -13,9 +13,9 @@ from .. import kd
 
 ID = "C12"
 BIN = ["gp", "op", "ip", "lc", "rc", "sp", "cp", "acp", "add", "sub", "rp", "sw", "proj", "div"]
-UN = ["neg", "reverse", "involute", "conjugate", "normsq", "hodge", "unhodge", "inv", "polarity", "outerexp"]
+UN = ["neg", "reverse", "involute", "conjugate", "normsq", "hodge", "unhodge", "inv", "polarity", "outerexp", "norm", "normalized"]
 NAMES = ["x10", "x2", "X3", "a", "B", "x1", "z", "Y", "x20", "b1", "A1", "k", "c12", "c2", "W", "m"]
-FORMS = ["symbol", "symbol", "string", "expr+1", "expr*2", "num", "num", "float"]
+FORMS = ["symbol", "symbol", "string", "expr+1", "expr*2", "hidden0+s", "num", "num", "float", "sympy-number"]
 RULE = ("case = (algebra config d<=3 quick / d<=4 thorough, operator from 14 binary + 10 unary incl. inverse and division, "
         "ordered key tuples <= 5 blades (<= 3 for inv/div/sw/proj), and per coefficient a form: sympy Symbol, the same given "
         "as a string, s+1, 2*s, a Fraction or a float; symbol names drawn from a pool whose name order differs from creation "
@@ -50,7 +50,27 @@ def _cases(draw, tier):
     heavy = op in ("inv", "div", "sw", "proj", "outerexp")
     cap = 3 if heavy else 5
     names = list(draw(st.permutations(NAMES)))
+    graded = draw(st.integers(0, 5)) == 0 and not heavy and op not in ("norm", "normalized")
+    if graded:
+        cfg["basis"] = None
+
     def operand():
+        if graded:
+            # graded mode: complete grades; symbolic coefficients next to explicit zeros (alg.vector([x, 0, 0]))
+            o = draw(S.operand(d, classes=["gradeblock"], max_len=None, min_len=1, zero_prob=0.0))
+            if len(o["keys"]) > 7:
+                o = {"keys": o["keys"][:1] if S.pc(o["keys"][0]) == 0 else o["keys"], "vals": o["vals"]}
+                o["vals"] = o["vals"][:len(o["keys"])]
+            forms = [draw(st.sampled_from(["symbol", "symbol", "zero", "zero", "num", "expr+1"])) for _ in o["keys"]]
+            vals = ["0" if f == "zero" else v for f, v in zip(forms, o["vals"])]
+            forms = ["num" if f == "zero" else f for f in forms]
+            return {"keys": o["keys"], "vals": vals, "forms": forms, "names": [names.pop() for _ in o["keys"]]}
+        if op in ("norm", "normalized"):
+            # a vector / blade with symbolic coefficients (norm of a single symbolic blade is sqrt(a**2): sign matters)
+            idx = draw(st.lists(st.integers(0, d - 1), unique=True, min_size=1, max_size=min(d, 2)))
+            ks = [1 << i for i in idx]
+            return {"keys": ks, "vals": [draw(S.fracs(nonzero=True)) for _ in ks], "forms": [draw(st.sampled_from(["symbol", "symbol", "num"])) for _ in ks],
+                    "names": [names.pop() for _ in ks]}
         o = draw(S.operand(d, classes=["single", "sparse", "sparse", "puregrade", "perm", "gradeblock"], max_len=cap, min_len=1, zero_prob=0.0))
         forms = [draw(st.sampled_from(FORMS)) for _ in o["keys"]]
         return {"keys": o["keys"], "vals": o["vals"], "forms": forms, "names": [names.pop() for _ in o["keys"]]}
@@ -60,13 +80,13 @@ def _cases(draw, tier):
         # the same symbolic element on both sides (x*x, x^x, x.cp(x) ...): coefficients cancel identically, which is what the
         # automatic simplification has to recognise
         b = {"keys": list(a["keys"]), "vals": list(a["vals"]), "forms": list(a["forms"]), "names": list(a["names"])}
-        if draw(st.booleans()) and len(b["keys"]) > 1:
+        if draw(st.booleans()) and len(b["keys"]) > 1 and not graded:
             for f_ in ("keys", "vals", "forms", "names"):
                 b[f_] = b[f_][::-1]
     if not any(f not in ("num", "float") for f in a["forms"] + (b["forms"] if b else [])):
         a["forms"][0] = "symbol"
-    vals = [[draw(S.fracs(nonzero=True)) for _ in range(10)] for _ in range(3)]
-    return {"cfg": cfg, "op": op, "a": a, "b": b, "valuations": vals}
+    vals = [[draw(S.fracs(nonzero=True)) for _ in range(16)] for _ in range(3)]
+    return {"cfg": cfg, "op": op, "a": a, "b": b, "valuations": vals, "graded": graded}
 
 
 def cases(tier):
@@ -81,6 +101,11 @@ def _build(alg, opnd, valuation, syms):
         if form == "num":
             svals.append(frac(v))
             nvals.append(frac(v))
+        elif form == "sympy-number":
+            import sympy as _sp
+            fv = frac(v)
+            svals.append(_sp.Rational(fv.numerator, fv.denominator))     # a sympy number next to symbolic coefficients
+            nvals.append(fv)
         elif form == "float":
             svals.append(float(frac(v)))
             nvals.append(float(frac(v)))
@@ -97,6 +122,10 @@ def _build(alg, opnd, valuation, syms):
             elif form == "expr+1":
                 svals.append(s + 1)
                 nvals.append(val + 1)
+            elif form == "hidden0+s":
+                # structurally non-zero, identically equal to s: (s + 1)**2 - s**2 - s - 1
+                svals.append((s + 1) ** 2 - s ** 2 - s - 1)
+                nvals.append(val)
             else:
                 svals.append(2 * s)
                 nvals.append(2 * val)
@@ -110,9 +139,9 @@ def _apply(op, x, y):
 def evaluate(case):
     import sympy
     cfg, op = case["cfg"], case["op"]
-    alg = kd.build_algebra(cfg)
+    alg = kd.build_algebra(cfg, graded=bool(case.get("graded")))
     allnames = case["a"]["names"] + (case["b"]["names"] if case["b"] else [])
-    floaty = "float" in case["a"]["forms"] or (case["b"] is not None and "float" in case["b"]["forms"])
+    floaty = "float" in case["a"]["forms"] or (case["b"] is not None and "float" in case["b"]["forms"]) or op in ("norm", "normalized")
     counters = {}
     rs = None
     dropped_any = False
@@ -133,6 +162,10 @@ def evaluate(case):
             continue
         except Exception as e:
             counters["numeric-raised:" + type(e).__name__] = 1
+            continue
+        if floaty and any(abs(complex(v)) > 1e6 for v in rn.values() if not hasattr(v, "free_symbols")):
+            # float coefficients next to a pole of the rational result: the comparison would measure conditioning
+            counters["valuation-near-pole"] = counters.get("valuation-near-pole", 0) + 1
             continue
         if rs is None:
             try:
@@ -199,8 +232,10 @@ def evaluate(case):
                         raise Violation("call-binds-by-name", op, f"calling {what} (same blades and symbols as r, different coefficients) "
                                         f"after calling r: {why}", observed=kd.show(called), expected=kd.show(exp2))
     forms = case["a"]["forms"] + (case["b"]["forms"] if case["b"] else [])
-    mix = any(f in ("num", "float") for f in forms) and any(f not in ("num", "float") for f in forms)
+    mix = any(f in ("num", "float", "sympy-number") for f in forms) and any(f not in ("num", "float", "sympy-number") for f in forms)
     labels = [f"op:{op}", f"d:{len(cfg['sig'])}"]
+    if case.get("graded"):
+        labels.append("opt:graded")
     if mix:
         labels.append("mix:symbolic+numeric")
     if dropped_any:
